@@ -360,6 +360,16 @@ func attempt(e *exporter.Exporter, c *tcase, f *fault) (out [][2]int, errClass s
 	return out, errClass
 }
 
+// after two stalled attempts in this process the wait is cut to one second (a stall that repeats is systematic)
+var attemptStalls int
+
+func attemptDeadline() time.Duration {
+	if attemptStalls >= 2 {
+		return time.Second
+	}
+	return 10 * time.Second
+}
+
 func runCase(c *tcase) map[string]any {
 	s, ms, err := build(c)
 	if err != nil {
@@ -394,7 +404,8 @@ func runCase(c *tcase) map[string]any {
 	select {
 	case r := <-ach:
 		out, errClass = r.out, r.errClass
-	case <-time.After(10 * time.Second):
+	case <-time.After(attemptDeadline()):
+		attemptStalls++
 		stalledAttempt = true
 		out, errClass = [][2]int{}, "stalled: the export attempt did not return within 10 s"
 	}
